@@ -17,6 +17,7 @@ const (
 	vErr
 	vSet
 	vReturn
+	vJoin
 )
 
 // Kinds of hooked operations.
@@ -30,6 +31,7 @@ const (
 	VErr      = vErr      // entry of lexer.Error
 	VSet      = vSet      // entry of lexer.set
 	VReturn   = vReturn   // Eval: before the results are read
+	VJoin     = vJoin     // wait: before waiting for the lexer goroutine
 )
 
 // VerifEvent describes a hooked operation.
